@@ -36,11 +36,17 @@ def call(ex, st, fn, args, kw, node):
             if isinstance(v, str) or (isinstance(v, Sym) and v.ty.kind == "str"): yield st, True; return
             if isinstance(v, Sym) and v.ty.kind == "opt" and v.ty.args[0].kind == "str":
                 yield st, Sym(BOOL, z3.Not(sort_of(v.ty).is_none(v.z))); return
-            if isinstance(v, Sym) and v.ty.kind == "abs":      # abstract cell: uninterpreted predicate
-                yield st, Sym(BOOL, ex.absfun("is_str", v.ty, BOOL)(v.z)); return
+            if isinstance(v, Sym) and v.ty.kind == "abs":
+                if v.ty.args[0] != "Cell": yield st, False; return           # abstract non-string values (floats, rows, ...)
+                yield st, Sym(BOOL, ex.absfun("is_str", v.ty, BOOL)(v.z)); return      # abstract data cell: uninterpreted predicate
             yield st, False; return
         if isinstance(v, Ref): yield st, S.is_subclass(v.cls, tn); return
         raise Unsupported("isinstance %r %r" % (v, t))
+    if name == "range":
+        if all(isinstance(a, int) for a in args): yield st, list(range(*args)); return
+        if len(args) <= 2:
+            start = lift(args[0]).z if len(args) == 2 else z3.IntVal(0); stop = lift(args[-1]).z
+            yield st, UFL(INT, (lambda i, start=start: start + i), z3.If(stop > start, stop - start, 0)); return
     if name == "enumerate":
         start = args[1] if len(args) > 1 else kw.get("start", 0)
         from .symexec import FallibleIter
@@ -51,6 +57,10 @@ def call(ex, st, fn, args, kw, node):
         yield st, Sym(STR, ex.to_str(st, args[0], "r")) if isinstance(args[0], Sym) else repr(args[0]); return
     if name == "str":
         v = args[0]
+        if isinstance(v, Sym) and v.ty.kind == "abs" and ("strof:" + v.ty.args[0]) in ex.contracts:
+            yield st, ex.contracts["strof:" + v.ty.args[0]](ex, st, v); return
+        if isinstance(v, Ref) and ("ref:%s.__str__" % v.cls) in ex.contracts:
+            yield from ex.contracts["ref:%s.__str__" % v.cls](ex, st, v, [], {}); return
         if isinstance(v, Ref):
             cls = S.find_class(v.cls); k, m = S.lookup_method(cls, "__str__") if cls else (None, None)
             if m is not None:
@@ -222,6 +232,12 @@ def method(ex, st, recv, name, args, kw, node=None):
     if isinstance(recv, dict) and name == "keys": yield st, list(recv.keys()); return
     if isinstance(recv, dict) and name == "values": yield st, list(recv.values()); return
     if isinstance(recv, dict) and name == "items": yield st, [tuple(kv) for kv in recv.items()]; return
+    if isinstance(recv, dict) and name == "get" and isinstance(args[0], Sym) and recv and all(isinstance(v, str) for v in recv.values()):
+        k = args[0]; d = args[1] if len(args) > 1 else None
+        if d is not None:
+            r = lift(d).z
+            for kk, vv in recv.items(): r = z3.If(k.z == lift(kk).z, z3.StringVal(vv), r)
+            yield st, Sym(STR, r); return
     if isinstance(recv, dict) and name == "get" and not isinstance(args[0], Sym):
         try: yield st, recv.get(args[0], args[1] if len(args) > 1 else None); return
         except TypeError: pass
